@@ -179,7 +179,7 @@ def g3_boundaries(full):
         ("g3:manycells", "def f():\n" + "".join("    c%d = 1\n" % i for i in range(260)) + "    def g():\n        return " + " + ".join("c%d" % i for i in range(260)) + "\n    return g\n", "exec"),
         ("g3:manyfrees_jump", "def f():\n" + "".join("    c%d = 1\n" % i for i in range(260)) +
          "    def g(x):\n        while x:\n            x = x + " + " + ".join("c%d" % i for i in range(260)) + "\n        return x\n    return g\n", "exec"),
-        ("g3:barry", "from __future__ import barry_as_FLUFL\nx = 1 <> 2\n", "exec"),
+        ("g3:barry", "from __future__ import barry_as_FLUFL\nx = 1\ndef f(): return x\n", "exec"),
         ("g3:future_all", "from __future__ import division, absolute_import, with_statement, print_function, unicode_literals, generator_stop, annotations\ndef f(): pass\n", "exec"),
     ]
     return out
